@@ -221,6 +221,59 @@ def run(rec, tier, seed):
     if nkeys < 300:
         rec.fail("C20:ast-reader-broken", {"kind": "dup-reader"}, f"only {nkeys} literal keys found in elements.py")
 
+    # 3a'. the arity the rest of the pipeline SEES is the table's: a niladic element under the parallel-apply modifier
+    #      must consume nothing (7 8 ₌KK leaves 7 8 k k).  Elements that read input / print / are random are skipped.
+    skip_nilads = {"?", "□", "¤", "Þ∞", "k□", "kḂ", "n", "x", "X"} | {k for k in vyxal.elements.elements if k.startswith("kε")}
+    for k, (code, ar) in vyxal.elements.elements.items():
+        if ar != 0 or k in skip_nilads:
+            continue
+        try:
+            alone = harness.run_program(k, budget=200_000)
+            under = harness.run_program("7 8 ₌" + k + k, budget=300_000)
+        except Exception:  # noqa: BLE001
+            continue
+        if alone.exc is not None or under.exc is not None or len(alone.stack) != 1:
+            continue
+        try:
+            ctxrun = harness.run_program("7 8 " + k, budget=200_000)
+            if ctxrun.exc is not None or [harness.norm(x, cap=50) for x in ctxrun.stack] != [harness.norm(7), harness.norm(8), harness.norm(alone.stack[0], cap=50)]:
+                continue  # the element looks at the stack / context (stack length, wrap, ...): not a plain constant
+        except Exception:  # noqa: BLE001
+            continue
+        rec.case(nontrivial=True, cls="nilad-under-modifier")
+        try:
+            v = harness.norm(alone.stack[0], cap=50)
+            got = [harness.norm(x, cap=50) for x in under.stack]
+        except Exception:  # noqa: BLE001
+            continue
+        if got != [harness.norm(7), harness.norm(8), v, v]:
+            rec.fail(f"C20:arity-seen-by-modifiers:{k}", {"kind": "nilad-mod", "key": k},
+                     f"element {k!r} has arity 0 in the table, but `7 8 ₌{k}{k}` leaves {harness.jsonable(got)!r:.200} instead of 7, 8 and its value twice")
+
+    # 3a''. no table entry binds a Python name that another entry reaches its implementation through
+    #       (all generated code of a program shares one namespace: `head = ...` in one template would shadow the
+    #       function `head` that another template calls)
+    binds, uses = {}, {}
+    for k, (code, ar) in vyxal.elements.elements.items():
+        try:
+            tree = ast.parse(code)
+        except SyntaxError:
+            continue
+        stored = {n.id for n in ast.walk(tree) if isinstance(n, ast.Name) and isinstance(n.ctx, (ast.Store, ast.Del))}
+        loaded = {n.id for n in ast.walk(tree) if isinstance(n, ast.Name) and isinstance(n.ctx, ast.Load)}
+        binds[k] = stored
+        uses[k] = loaded - stored
+    rec.case(nontrivial=True, cls="template-name-shadowing", n=len(binds))
+    module_names = {n for n in dir(vyxal.elements) if callable(getattr(vyxal.elements, n, None))}
+    for a, st_a in binds.items():
+        clash = (st_a & module_names) - {"stack", "ctx"}
+        for name in sorted(clash):
+            users = [b for b, u in uses.items() if name in u and b != a]
+            if users:
+                rec.fail(f"C20:template-shadows-name:{a}", {"kind": "shadow", "key": a},
+                         f"the template of {a!r} assigns the Python name {name!r}, through which the template(s) of {users[:5]!r} reach their implementation; after {a!r} has run they are shadowed")
+                break
+
     # 3b. the tables are the same after the pipeline has been used (they are global, mutable dicts)
     snap_e, snap_m, snap_cp = dict(vyxal.elements.elements), dict(vyxal.elements.modifiers), vyxal.encoding.codepage
     odd = ["\n", "k", "∆", "ø", "Þ", "¨", "kq", "∆q", "é", "\\a", "→x", "←", "1", "`a`", "«a«", "⁺a", "X", "x", " ", "#c\n+"]
@@ -307,6 +360,13 @@ def replay(case):
         run(rec, "quick", 1)
         f = rec.failures.get("C20:table-mutated-by-use")
         return ("C20:table-mutated-by-use", f["msg"]) if f else None
+    if kind in ("nilad-mod", "shadow"):
+        rec = __import__("vx.campaign", fromlist=["Rec"]).Rec()
+        run(rec, "quick", 1)
+        for sig, f in rec.failures.items():
+            if f["case"].get("kind") == kind and f["case"].get("key") == case.get("key"):
+                return (sig, f["msg"])
+        return None
     if kind == "positional":
         if not case["key"]:
             return None
